@@ -8,6 +8,7 @@ THEOREMS = [
     # falcon/app.py _handle_exception (model Eh.handle)
     'Eh.body_reset_before_handler', 'Eh.handler_runs_on_clean_body', 'Eh.handler_raised_http_rendered', 'Eh.handler_raised_status_rendered',
     'Eh.escape_iff', 'Eh.default_exception_is_500_and_never_escapes', 'Eh.default_httperror_keeps_status',
+    'Eh.draft_then_http_eq_http', 'Eh.draft_then_status_eq_status', 'Eh.draft_http_body_is_error', 'Eh.draft_status_body_is_status_text', 'Eh.draft_leaks_pinned_witness',
     # falcon/app_helpers.py default_serialize_error (model Es.serializeChoice on top of Mt.bestMatch)
     'Es.serialize_json_on_tie', 'Es.negotiated_tie_is_json', 'Es.serialize_xml_only_if_preferred_and_enabled', 'Es.serialize_xml_type',
     'Es.serialize_never_form_types', 'Es.serialize_ctype_negotiated', 'Es.serialize_none_iff', 'Es.serialize_none_accepts_nothing',
@@ -27,6 +28,7 @@ STATEMENTS = {
     'Eh.handler_runs_on_clean_body': 'if the chosen handler sets nothing, the resulting response has text = data = media = None',
     'Eh.handler_raised_http_rendered': 'if the chosen handler raises an HTTPError, the response is that error\'s status and its serialized body',
     'Eh.handler_raised_status_rendered': 'if the chosen handler raises an HTTPStatus, the response is that status and text',
+    'Eh.draft_http_body_is_error': 'if the chosen handler assigns text/data/media and THEN raises an HTTPError, the body sent is the serialized error, never the draft (fix 07d5278; Eh.draft_leaks_pinned_witness: the pinned code sent the draft)',
     'Eh.escape_iff': 'an exception leaves _handle_exception iff no class of the MRO is registered or the chosen handler raises something other than HTTPError/HTTPStatus',
     'Eh.default_exception_is_500_and_never_escapes': 'with the three default registrations in the history and no later registration for a class of the MRO, an Exception-derived (non-HTTPError, non-HTTPStatus) error is handled (never escapes) and yields status 500',
     'Eh.default_httperror_keeps_status': 'with the default registrations and no later registration for a class of the MRO, an HTTPError-derived error yields its own status and serialized body',
@@ -386,7 +388,8 @@ def _sites(ctx):
     sess = ctx.session('_handle_exception outcome (WSGI+ASGI, every raise site) = Eh.handle', 'ehdriver')
     name = 'raise sites: body set before the raise is discarded; the response is what the handler defines; handler-raised HTTPError/HTTPStatus is rendered; default 500 never escapes; body of a render-time error is sent'
     sites = SITES + ['render415']
-    outcomes = ['set_text', 'set_data', 'set_media', 'nothing', 'raise_http', 'raise_status', 'raise_plain']
+    outcomes = ['set_text', 'set_data', 'set_media', 'nothing', 'raise_http', 'raise_status', 'raise_plain',
+                'draft_raise_http', 'draft_raise_status', 'draft_raise_status_notext']
     combos = [(st, site, exc, out) for st in ('wsgi', 'asgi') for site in sites for exc in ('http', 'status', 'plain', 'custom')
               for out in (outcomes if exc == 'custom' else [None])]
     i, k = ctx.shard
@@ -403,6 +406,7 @@ def _sites(ctx):
         class AppErr(Exception):
             pass
         called = []
+        drafts = [p for p in ('text', 'data', 'media') if rnd.random() < 0.6] or [rnd.choice(['text', 'data', 'media'])]
 
         def make():
             if site == 'render415':
@@ -444,6 +448,16 @@ def _sites(ctx):
                 resp.content_type = falcon.MEDIA_JSON        # (at the render sites the content type is what made rendering fail)
             elif out == 'raise_http': raise falcon.HTTPGone(title='T-gone', headers={'X-Err': 'e2'})
             elif out == 'raise_status': raise falcon.HTTPStatus(298, headers={'X-St': 's2'}, text='handler-status-text')
+            elif out.startswith('draft_'):
+                # the handler assigns a body and THEN raises: the raised error / status is what must be rendered
+                if 'text' in drafts: resp.text = 'DRAFT-text'
+                if 'data' in drafts: resp.data = b'DRAFT-data'
+                if 'media' in drafts:
+                    resp.media = {'DRAFT': 'media'}
+                    if site not in ('render', 'render415'): resp.content_type = falcon.MEDIA_JSON
+                if out == 'draft_raise_http': raise falcon.HTTPGone(title='T-gone', headers={'X-Err': 'e2'})
+                if out == 'draft_raise_status': raise falcon.HTTPStatus(298, headers={'X-St': 's2'}, text='handler-status-text')
+                raise falcon.HTTPStatus(297, headers={'X-St': 's3'})
             elif out == 'raise_plain': raise KeyError('raised inside the handler')
         if asgi:
             async def h(req, resp, ex, params): hbody(resp)
@@ -497,12 +511,19 @@ def _sites(ctx):
             elif out == 'nothing': what = expect(233, body=b'')
             elif out == 'raise_http': what = expect(410, jtitle='T-gone', hdr=('x-err', 'e2'), vary=True)
             elif out == 'raise_status': what = expect(298, body=b'handler-status-text', hdr=('x-st', 's2'))
+            elif out == 'draft_raise_http': what = expect(410, jtitle='T-gone', hdr=('x-err', 'e2'), vary=True)
+            elif out == 'draft_raise_status': what = expect(298, body=b'handler-status-text', hdr=('x-st', 's2'))
+            elif out == 'draft_raise_status_notext': what = expect(297, body=b'', hdr=('x-st', 's3'))
             elif out == 'raise_plain':
                 if r.escaped is None and r.status != 500:
                     what = f'handler raised a plain exception: neither propagated nor 500 (status {r.status})'
         if what is None and b'PRESET' in r.body:
             what = f'content set before the raise was sent: {r.body[:80]!r}'
+        if what is None and b'DRAFT' in r.body:
+            what = f'content the handler set before raising was sent instead of the raised error/status: {r.body[:80]!r}'
         case = {'stack': stack, 'site': site, 'raised': raised, 'handler_outcome': out, 'preset': presets, 'via_testing': ci % 16 == 5}
+        if out and out.startswith('draft_'):
+            case['handler_drafts'] = drafts
         ctx.oracle(name, what is None, what, case)
         # ---- model: Eh.handle on (mro ids, registry, behaviour of the chosen handler, preset body)
         # classes: 1 = raised class, 2 = HTTPError, 3 = HTTPStatus, 4 = Exception, 5 = BaseException
@@ -514,7 +535,9 @@ def _sites(ctx):
         if raised == 'custom':
             sess.op('reg 1 7', 'ok')
             beh = {'set_text': 'sets:233:1', 'set_data': 'sets:233:2', 'set_media': 'sets:233:3', 'nothing': 'sets:233:0',
-                   'raise_http': 'http:410', 'raise_status': 'status:298', 'raise_plain': 'other'}[out]
+                   'raise_http': 'http:410', 'raise_status': 'status:298', 'raise_plain': 'other',
+                   'draft_raise_http': 'drafthttp:410:' + ''.join(p[0] for p in drafts), 'draft_raise_status': 'draftstatus:298:' + ''.join(p[0] for p in drafts),
+                   'draft_raise_status_notext': 'draftstatus:297:' + ''.join(p[0] for p in drafts)}[out]
             sess.op(f'behave 7 {beh}', 'ok')
         pre = ''.join(c for c, p in (('t', 'text'), ('d', 'data'), ('m', 'media')) if p in presets) or '-'
         if r.escaped is not None:
@@ -522,6 +545,9 @@ def _sites(ctx):
         else:
             # body source: 0 none, 1 text, 2 data, 3 media (handler), 4 serialized error, 5 status text, 9 preset leaked
             if b'PRESET' in r.body: src = 9
+            elif r.body == b'DRAFT-text': src = 1
+            elif r.body == b'DRAFT-data': src = 2
+            elif j == {'DRAFT': 'media'}: src = 3
             elif r.body == b'': src = 0
             elif r.body == b'handler-text': src = 1
             elif r.body == b'handler-data': src = 2
@@ -530,7 +556,8 @@ def _sites(ctx):
             elif r.body in (b'status-text', b'handler-status-text'): src = 5
             else: src = 8
             obs = f'status={r.status} body={src}'
-        sess.op(f'handle {mro} {st_raised} {pre}', obs)
+        if out != 'draft_raise_status_notext':       # (Eh.composeStatus always carries a text; the text-less HTTPStatus is judged by the oracle only)
+            sess.op(f'handle {mro} {st_raised} {pre}', obs)
         ctx.seen(('b', stack, site, raised, out, tuple(presets)), True)
         ctx.count('b_site_' + site)
         ctx.count('b_raised_' + raised + ('' if out is None else ':' + out))
